@@ -11,6 +11,7 @@ import (
 	"os"
 	"os/exec"
 	"path/filepath"
+	"strings"
 	"time"
 
 	nio "github.com/notaryproject/notation-go/internal/io"
@@ -633,6 +634,9 @@ func c17ExecNative(e *c17ProcEnv) {
 	if !e.hasDeadline {
 		vr.SkipNative()
 	}
+	if e.exits && e.exitAt == e.deadline {
+		vr.SkipNative() // a process that exits at the very instant of the deadline cannot be staged
+	}
 	exitsFirst := e.exits && e.exitAt <= e.deadline
 	procEnd := e.deadline
 	if exitsFirst {
@@ -656,9 +660,9 @@ func c17ExecNative(e *c17ProcEnv) {
 	if !exitsFirst {
 		script += "echo out\necho err >&2\nexec sleep 20\n"
 	} else if e.exitOK {
-		script += "echo out\nexit 0\n"
+		script += "echo out\necho err >&2\nexit 0\n"
 	} else {
-		script += "echo err >&2\nexit 1\n"
+		script += "echo out\necho err >&2\nexit 1\n"
 	}
 	path := filepath.Join(dir, "notation-foo")
 	if err := os.WriteFile(path, []byte(script), 0o755); err != nil {
@@ -675,8 +679,10 @@ func c17ExecNative(e *c17ProcEnv) {
 	}
 	defer cancel()
 	t0 := time.Now()
-	_, _, rerr := execCommander{}.Output(ctx, path, plugin.CommandGetMetadata, []byte("{}"))
+	_, serrB, rerr := execCommander{}.Output(ctx, path, plugin.CommandGetMetadata, []byte("{}"))
 	el := time.Since(t0)
+	// every script writes "out" and "err" to its two streams before anything else (as the process of the model does)
+	vr.Assert(rerr == nil || strings.TrimSpace(string(serrB)) == "err", "failure returns the captured stderr")
 	if rerr == nil {
 		vr.Reach("process succeeded")
 	} else {
